@@ -69,6 +69,10 @@ def cache_canon(doc):
 
 def materialise(root: Path, files: dict, excl: str, cache_doc, touched: bool):
     for p, cid in files.items():
+        if cid == "dangling":
+            (root / p).parent.mkdir(parents=True, exist_ok=True)
+            os.symlink(str(root / "does-not-exist"), str(root / p))
+            continue
         harness.write_files(root, {p: content(p, cid)})
         if touched:
             os.utime(root / p, (1_000_000_000, 1_000_000_000))
@@ -137,18 +141,34 @@ def do_scan(root: Path, files, excl, cache_doc):
     from codelimit.common.report.Report import Report
 
     out = []
+    all_files = files
+    files = {p: c for p, c in files.items() if c != "dangling"}
     with AnalyzeCounter() as ac, harness.cwd(root):
         code, text, exc = harness.run_cli_function(scan_with_config, excl)
     harness.reset_globals()
     if exc is not None or code not in (None, 0):
-        return None, [("scan-fails", {"error": type(exc).__name__ if exc else f"exit-{code}"}, repr(exc))]
+        # does the from-scratch scan of the same tree fail the same way? (an unreadable entry such as a dangling symlink makes both fail)
+        try:
+            fresh_doc(root, excl)
+            fresh_exc = None
+        except Exception as fe:  # noqa
+            fresh_exc = type(fe).__name__
+        if exc is not None and fresh_exc == type(exc).__name__:
+            return None, []
+        return None, [("scan-fails", {"error": type(exc).__name__ if exc else f"exit-{code}"}, f"{exc!r} (from-scratch scan: {fresh_exc or 'completes'})")]
     new_doc = json.loads((root / ".codelimit_cache" / "codelimit.json").read_text())
     key = (tuple(sorted(files.items())), excl)
-    if key not in _FRESH:
-        d = fresh_doc(root, excl)
-        d.pop("root", None)
-        _FRESH[key] = d
-    want = dict(_FRESH[key], root=new_doc.get("root"))
+    if len(all_files) != len(files):
+        try:
+            want = fresh_doc(root, excl)
+        except Exception as fe:  # noqa
+            return new_doc, [("cached-scan-completes-where-fresh-scan-fails", {"error": type(fe).__name__}, f"files {all_files}")]
+    else:
+        if key not in _FRESH:
+            d = fresh_doc(root, excl)
+            d.pop("root", None)
+            _FRESH[key] = d
+        want = dict(_FRESH[key], root=new_doc.get("root"))
     sel = selected(files, excl)
     if normalise(new_doc) != want:
         gf, wf = new_doc["codebase"]["files"], want["codebase"]["files"]
@@ -279,6 +299,7 @@ def history_ops(paths, cids):
             ops.append(("write", p, c))
         ops.append(("delete", p))
         ops.append(("touch", p))
+        ops.append(("dangle", p))
     for p, q in itertools.permutations(paths, 2):
         if p.rsplit(".", 1)[1] == q.rsplit(".", 1)[1]:
             ops.append(("rename", p, q))
@@ -295,6 +316,8 @@ def apply_op(root: Path, st, op):
     files = st["files"]
     k = op[0]
     if k == "write":
+        if files.get(op[1]) == "dangling":
+            (root / op[1]).unlink()
         harness.write_files(root, {op[1]: content(op[1], op[2])})
         files[op[1]] = op[2]
     elif k == "delete":
@@ -302,8 +325,15 @@ def apply_op(root: Path, st, op):
             return False
         (root / op[1]).unlink()
         del files[op[1]]
+    elif k == "dangle":
+        # the path stays listed but cannot be read any more (dangling symbolic link)
+        if op[1] not in files or files[op[1]] == "dangling":
+            return False
+        (root / op[1]).unlink()
+        os.symlink(str(root / "does-not-exist"), str(root / op[1]))
+        files[op[1]] = "dangling"
     elif k == "touch":
-        if op[1] not in files:
+        if op[1] not in files or files[op[1]] == "dangling":
             return False
         os.utime(root / op[1], (1_200_000_000, 1_200_000_000))
     elif k == "rename":
@@ -313,7 +343,7 @@ def apply_op(root: Path, st, op):
         os.replace(root / op[1], root / op[2])
         files[op[2]] = files.pop(op[1])
     elif k == "swap":
-        if op[1] not in files or op[2] not in files:
+        if op[1] not in files or op[2] not in files or "dangling" in (files[op[1]], files[op[2]]):
             return False
         a, b = (root / op[1]).read_text(), (root / op[2]).read_text()
         if op[1].rsplit(".", 1)[1] != op[2].rsplit(".", 1)[1]:
@@ -380,6 +410,8 @@ def run_history(paths, cids, ops_seq):
             n_scans += 1
             if viol:
                 return [(k, dict(s, at_step=i), d) for k, s, d in viol], n_scans
+            if new_doc is None:
+                continue  # the scan failed exactly like the from-scratch scan (unreadable entry): nothing was written
             # abstraction validation: the same abstract state materialised from scratch must have the same successor
             mat_doc, _ = eval_state(dict(st["files"]), st["excl"], cache_doc, False)
             a, b = normalise(new_doc), normalise(mat_doc) if mat_doc else None
